@@ -24,7 +24,7 @@ SECONDS = [0, 1, (1 << 31) - 1, 1 << 31, (1 << 32) - 1, 1700000000]
 def describe(tier):
     return {
         "rule": f"T: {len(c01.classes())} cipher-state classes x IPv4/IPv6 x segment sizes (1460, 100, 9) with distinct MAC/IP/port per "
-                "connection and awkward sub-second parts, two connections per capture; Q: QUIC default + every 1-deviation scenario; "
+                "connection and awkward sub-second parts, four connections per capture (two of them between the same IP addresses as the first but over other MAC addresses); Q: QUIC default + every 1-deviation scenario; "
                 "M: all 10^6 microsecond values x seconds {0,1,2^31-1,2^31,2^32-1,1.7e9}" + (" (quick: seconds 1.7e9 and 2^32-1 "
                 "exhaustive, the others every 97th microsecond)" if tier == "quick" else "") +
                 ". non-trivial: T/Q - an execution in which >= 2 output packets with payload were attributed; M - every timestamp; "
@@ -174,9 +174,15 @@ def run_case(case):
                         if p.payload:
                             seen.add(p.dir)
                         i += 1
-            ends = {3: f1.ends, 4: f2.ends}
-            pkts = cap.stamp(scen.round_robin([f1.pkts, f2.pkts]), ends)
-            res = scen.run(pkts, f1.keylog() + f2.keylog())
+            # two further connections between the SAME two IP addresses as connection 1 but over other link-layer addresses
+            # (a second path / another hop), one TLS and one QUIC, each with ports of its own
+            f3 = scen.tls_flow(dict(scn, history=[("c", 45), ("s", 61), ("c", 8)]), seed, 5, v6=v6, key=("third",))
+            f4 = scen.quic_flow({"suite": 0x1301, "script": [("c", [(0, 40)]), ("s", [(0, 50)]), ("c", [(0, 6)])]}, seed, 6, v6=v6)
+            for f in (f3, f4):
+                f.ends.client.ip, f.ends.server.ip = f1.ends.client.ip, f1.ends.server.ip
+            ends = {3: f1.ends, 4: f2.ends, 5: f3.ends, 6: f4.ends}
+            pkts = cap.stamp(scen.round_robin([f1.pkts, f2.pkts, f3.pkts, f4.pkts]), ends)
+            res = scen.run(pkts, f1.keylog() + f2.keylog() + f3.keylog() + f4.keylog())
             n += 1
             sig = {"layer": "T", "class": cname, "v6": v6, "mss": mss, "order": order}
             try:
@@ -186,6 +192,8 @@ def run_case(case):
                 continue
             before = len(fails)
             cnt = check_tls_flow(an, f1, pkts, sig, fails) + check_tls_flow(an, f2, pkts, dict(sig, flow=2), fails)
+            check_tls_flow(an, f3, pkts, dict(sig, flow=3), fails)
+            check_quic_flow(an, f4, pkts, dict(sig, flow=4), fails)
             if len(fails) == before and cnt >= 2:
                 nontriv.append(engine.jhash(sig))
                 if sample is None:
